@@ -135,7 +135,7 @@ class C18(SeqProp):
     props_file = "Props/C18.v"
     focus = "mix"
     quick_cases = 250
-    thorough_cases = 1000
+    thorough_cases = 400
     assumptions = [
         "the switched sequence is compared with the original on: channel names, slot kinds/times/targets, pulse samples and phases, EOM blocks, and the sampled amplitude/detuning/phase arrays",
     ]
